@@ -143,7 +143,7 @@ theorem translated_emission_after_wait (σ : Env)
       ∃ post, (obs Trans.recoverSingleEvent σ).calls = rsePre σ ++ rseWait σ :: post ∧ rseSend σ ∉ rsePre σ) ∧
     (obs Trans.recoverSingleEvent σ).calls.count (rseSend σ) ≤ 1 := by
   have h := C07.translated_recoverSingleEvent σ ho ht
-  simp only at h
+  simp only [TransExpected.recoverSingleEvent] at h
   rw [h]
   cases rdec (σ "lookup rc.activePartitionMap#1" != 0) (σ "recoveryState.fromOffset") (σ "recoveryState.toOffset")
       (σ "e.TopicPartition.Offset") (σ "rc.updateRequestEvery") with
